@@ -196,6 +196,10 @@ func (reader *H264Reader) NextNAL() (*NAL, error) {
 	nal := newNal(reader.nalBuffer)
 	reader.nalBuffer = nil
 	nal.parseHeader()
+	if !reader.includeSEI && nal.UnitType == NalUnitTypeSEI {
+		// the stream ended with a unit that is to be skipped
+		return nil, io.EOF
+	}
 
 	return nal, nil
 }
